@@ -10,6 +10,8 @@ import (
 	"sort"
 	"strings"
 	"sync"
+	"sync/atomic"
+	"time"
 
 	"github.com/BlackVectorOps/semantic_firewall/v3/pkg/analysis/ir"
 	"github.com/BlackVectorOps/semantic_firewall/v3/pkg/diff"
@@ -48,6 +50,32 @@ func fpDigest(path, kind string) (string, int, error) {
 	sort.Strings(lines)
 	h := sha256.Sum256([]byte(strings.Join(lines, "\x01")))
 	return hex.EncodeToString(h[:10]), len(res), nil
+}
+
+// callDeadline: a fingerprint call that does not return within this time (thousands of times what the
+// same call needs in any other context) is recorded as the outcome "NO-RESULT" of that context — the
+// result of a call includes that there is one — and the process stops (the call cannot be cancelled).
+const callDeadline = 90 * time.Second
+
+var errNoResult = fmt.Errorf("no result within %v", callDeadline)
+
+func fpDigestDeadline(path, kind string) (string, int, error) {
+	type res struct {
+		dg  string
+		n   int
+		err error
+	}
+	ch := make(chan res, 1)
+	go func() {
+		dg, n, err := fpDigest(path, kind)
+		ch <- res{dg, n, err}
+	}()
+	select {
+	case r := <-ch:
+		return r.dg, r.n, r.err
+	case <-time.After(callDeadline):
+		return "NO-RESULT", -1, errNoResult
+	}
 }
 
 func fpRun(args []string) error {
@@ -93,7 +121,13 @@ func fpRun(args []string) error {
 	}
 	rng.Shuffle(len(jobs), func(i, j int) { jobs[i], jobs[j] = jobs[j], jobs[i] })
 	for n, j := range jobs {
-		dg, cnt, err := fpDigest(plan.Files[j.fi].Path, kinds[j.ki])
+		dg, cnt, err := fpDigestDeadline(plan.Files[j.fi].Path, kinds[j.ki])
+		if err == errNoResult {
+			emit(kinds[j.ki], plan.Files[j.fi].ID, fmt.Sprintf("seq#%d", n), dg, cnt)
+			tw.close()
+			flushCoverage()
+			os.Exit(0)
+		}
 		if err != nil {
 			return fmt.Errorf("%s: %w", plan.Files[j.fi].Path, err)
 		}
@@ -109,7 +143,14 @@ func fpRun(args []string) error {
 			r := rand.New(rand.NewSource(plan.Seed*1000 + int64(g)))
 			for n := 0; n < plan.Rounds*2; n++ {
 				fi, ki := r.Intn(len(plan.Files)), r.Intn(len(kinds))
-				dg, cnt, err := fpDigest(plan.Files[fi].Path, kinds[ki])
+				dg, cnt, err := fpDigestDeadline(plan.Files[fi].Path, kinds[ki])
+				if err == errNoResult {
+					emit(kinds[ki], plan.Files[fi].ID, fmt.Sprintf("goroutine%d#%d", g, n), dg, cnt)
+					mu.Lock()
+					tw.close()
+					flushCoverage()
+					os.Exit(0)
+				}
 				if err != nil {
 					errs <- err
 					return
@@ -123,11 +164,31 @@ func fpRun(args []string) error {
 	for e := range errs {
 		return e
 	}
+	// watchdog for the phase below (its calls cannot be wrapped one by one): no progress for callDeadline
+	// is recorded as NO-RESULT for the file being worked on, then the process stops
+	var curFile atomic.Value
+	var lastProgress atomic.Int64
+	lastProgress.Store(time.Now().UnixNano())
+	curFile.Store("")
+	go func() {
+		for {
+			time.Sleep(time.Second)
+			if id := curFile.Load().(string); id != "" && time.Since(time.Unix(0, lastProgress.Load())) > callDeadline {
+				emit("default", id, "shared-program phase", "NO-RESULT", -1)
+				mu.Lock()
+				tw.close()
+				flushCoverage()
+				os.Exit(0)
+			}
+		}
+	}()
 	// concurrent callers on ONE shared SSA program: GenerateFingerprint for every function of a file
 	// (function literals and the functions that enclose them included) from goroutines released
 	// together, each trial under a policy value never used before (no warmed per-policy state),
 	// compared with a sequential pass under the same policy afterwards.
 	for fi, f := range plan.Files {
+		curFile.Store(f.ID)
+		lastProgress.Store(time.Now().UnixNano())
 		src, err := os.ReadFile(f.Path)
 		if err != nil {
 			return err
@@ -137,6 +198,7 @@ func fpRun(args []string) error {
 			return err
 		}
 		for trial := 0; trial < plan.Rounds*3; trial++ {
+			lastProgress.Store(time.Now().UnixNano())
 			pol := ir.DefaultLiteralPolicy
 			pol.SmallIntMax = 16 + int64(trial) + 100*int64(fi) + 10000*(plan.Seed%7)
 			polName := fmt.Sprintf("default+max%d", pol.SmallIntMax)
@@ -182,6 +244,9 @@ func fpRun(args []string) error {
 			emit(polName, f.ID, fmt.Sprintf("shared-program sequential#%d", trial), digest(seq), len(seq))
 		}
 	}
+	curFile.Store("")
+	mu.Lock()
+	defer mu.Unlock()
 	return tw.close()
 }
 
